@@ -573,4 +573,102 @@ def Proc.nextExpiry {V} (p : Proc V) : Option Nat :=
 def Exec.nextTimeoutMs {V} (ex : Exec V) : Option Nat :=
   listMin (ex.selecting.filterMap (fun pid => (ex.getProc pid).bind Proc.nextExpiry))
 
+/-! ## Variant: the select waits for its await answer (`notes/C05-fixes/01-select-waits-for-its-await-answer.patch`)
+
+At HEAD a select with process sources parks after `Action::Await`, but anything wakes it — a message, an
+await answer that concerns an earlier select — and it then walks its sources with the targets still
+unknown. The patch adds `SelectState.unanswered` (the process sources whose worker has not answered
+yet): the select evaluates NOTHING while the list is non-empty, every answer (result, failure, the
+"not finished, you are registered" placeholder) removes its target and wakes the select.
+
+The list is kept beside the process record (`ExecW.unanswered`), so that every definition and theorem
+above stays the HEAD function: with the flag off the list is always empty and `ExecW.selectPure` IS
+`Exec.selectPure` (`C05.variant_off_is_head`). -/
+
+structure Variant where
+  /-- `false` = the code at HEAD -/
+  selectWaitsForAnswer : Bool := false
+  deriving DecidableEq, Repr
+
+structure ExecW (V : Type) where
+  ex : Exec V := {}
+  /-- `SelectState.unanswered` per process (absent = empty) -/
+  unanswered : AMap (List Nat) := []
+
+/-- `select_state.unanswered` of `pid` -/
+def ExecW.un {V} (w : ExecW V) (pid : Nat) : List Nat := (amLookup pid w.unanswered).getD []
+
+/-- `Executor::mark_answered`: `state.unanswered.retain(|t| *t != awaited)` -/
+def ExecW.markAnswered {V} (w : ExecW V) (awaiter awaited : Nat) : ExecW V :=
+  { w with unanswered := amInsert awaiter ((w.un awaiter).filter (· != awaited)) w.unanswered }
+
+def ExecW.stillAwaiting {V} (w : ExecW V) (awaiter awaited : Nat) : Bool :=
+  match w.ex.getProc awaiter with
+  | some p => p.stillAwaiting awaited
+  | none => false
+
+def ExecW.notifyMessage {V} (w : ExecW V) (pid : Nat) (m : V) : ExecW V :=
+  { w with ex := w.ex.notifyMessage pid m }
+
+/-- `notify_result`: inside `if still_awaiting`, after the store, `mark_answered` -/
+def ExecW.notifyResultOk {V} (w : ExecW V) (awaiter awaited : Nat) (v : V) : ExecW V :=
+  let w1 := if w.stillAwaiting awaiter awaited then w.markAnswered awaiter awaited else w
+  { w1 with ex := w.ex.notifyResultOk awaiter awaited v }
+
+/-- `notify_failure`: after the `still_awaiting` test, record + `mark_answered` -/
+def ExecW.notifyFailure {V} (w : ExecW V) (awaiter awaited : Nat) (e : ErrClass) : ExecW V :=
+  let w1 := if w.stillAwaiting awaiter awaited then w.markAnswered awaiter awaited else w
+  { w1 with ex := w.ex.notifyFailure awaiter awaited e }
+
+/-- the awaiter loop of `Executor::step` for one awaiter (`Exec.notifyFinished`) -/
+def ExecW.notifyFinished {V} (w : ExecW V) (awaiter finished : Nat) (r : Res V) : ExecW V :=
+  match w.ex.getProc awaiter with
+  | some p =>
+    if (amLookup finished p.awaiting).isSome then
+      match r with
+      | .ok v => w.notifyResultOk awaiter finished v
+      | .err e => w.notifyFailure awaiter finished e
+    else w
+  | none => w
+
+/-- `Executor::notify_pending` (a `None` entry of an UpdateAwaitResults): the target's worker answered
+    "not finished yet, you are registered". The caller (`update_await_results`) wakes the awaiter. -/
+def ExecW.notifyPending {V} (w : ExecW V) (awaiter awaited : Nat) : ExecW V := w.markAnswered awaiter awaited
+
+def ExecW.wake {V} (w : ExecW V) (pid : Nat) : ExecW V := { w with ex := w.ex.wake pid }
+
+/-- One execution of the Select instruction under the variant. A new select lists its process
+    sources as unanswered (flag on); an existing one with unanswered targets parks again without
+    looking at any source (`handle_select`, between phases 2 and 3). -/
+def ExecW.selectPure {V} (v : Variant) (w : ExecW V) (pid now : Nat) (stackSources : List (Source V)) :
+    ExecW V × Option (StepRes V) :=
+  match w.ex.getProc pid with
+  | none => (w, none)
+  | some p =>
+    match p.sel with
+    | none =>
+      ({ ex := (w.ex.selectPure pid now stackSources).1,
+         unanswered := amInsert pid (if v.selectWaitsForAnswer then pidTargets stackSources else []) w.unanswered },
+       (w.ex.selectPure pid now stackSources).2)
+    | some _ =>
+      if (w.un pid).isEmpty then
+        ({ w with ex := (w.ex.selectPure pid now stackSources).1 }, (w.ex.selectPure pid now stackSources).2)
+      else ({ w with ex := w.ex.markSelecting pid }, some .parked)
+
+/-! ### "Ready" at system level
+
+`selectSpec` above is relative to what the process KNOWS. The documented priority ("prioritising `p1` if
+both are already finished") is about what is TRUE: a target that had finished before the select started
+is ready, whether or not the answer has reached the process. `certain t` = the result of `t` if `t` had
+finished when the select was initialised. -/
+
+def sysResults {V} (known certain : Nat → Option (Res V)) : Nat → Option (Res V) := fun t =>
+  match known t with
+  | some r => some r
+  | none => certain t
+
+def selectSpecSys {V} (mailbox : List V) (known certain : Nat → Option (Res V)) (start now : Nat)
+    (srcs : List (Source V)) : SpecOutcome V :=
+  selectSpec mailbox (sysResults known certain) start now srcs
+
 end QM.Exec
